@@ -24,7 +24,7 @@ let rec zlen (l : 'a list) = List.length l
 
 (* ---- state of one case ---- *)
 let caps = ref caps_init
-let cfg = ref { g_dont_convert_rich = false; g_xvp = false; g_utf8 = false; g_ledhook = false; g_reset_extclip = false }
+let cfg = ref { g_dont_convert_rich = false; g_xvp = false; g_utf8 = false; g_ledhook = false; g_reset_extclip = false; g_raw_for_24bpp = false; g_wrap_coalesce = false }
 let mk_pst bpp depth tc rmax gmax bmax w h =
   { p_bpp = bpp; p_depth = depth; p_truecolour = tc; p_rmax = rmax; p_gmax = gmax; p_bmax = bmax;
     p_fbw = w; p_fbh = h; p_latest = []; p_named = []; p_scale_requested = false }
@@ -161,7 +161,8 @@ let () =
                    sc_name = name; sc_password = kvi toks "pw" = 1 } in
         screen := Some sc;
         cfg := { g_dont_convert_rich = kvi toks "dontconv" = 1; g_xvp = kvi toks "xvp" = 1; g_utf8 = kvi toks "utf8" = 1;
-                 g_ledhook = kvi toks "ledhook" = 1; g_reset_extclip = kvi toks "resetextclip" = 1 };
+                 g_ledhook = kvi toks "ledhook" = 1; g_reset_extclip = kvi toks "resetextclip" = 1;
+                 g_raw_for_24bpp = kvi toks "raw24" = 1; g_wrap_coalesce = kvi toks "wrapfix" = 1 };
         fbw := kvi toks "w"; fbh := kvi toks "h";
         pst := mk_pst (g "bpp") (g "depth") (kvi toks "tc" = 1) (g "rmax") (g "gmax") (g "bmax") (g "w") (g "h");
         print_endline "screen ok"
@@ -212,14 +213,15 @@ let () =
         let sn = { sn_mod = rg "mod"; sn_req = rg "req"; sn_copy = rg "copy"; sn_dx = g "dx"; sn_dy = g "dy";
                    sn_clx = g "clx"; sn_cly = g "cly"; sn_scx = g "scx"; sn_scy = g "scy"; sn_cursor = cur;
                    sn_ledval = g "led"; sn_fbw = g "fbw"; sn_fbh = g "fbh"; sn_maxrects = g "maxrects";
-                   sn_cmw = g "cmw"; sn_cmh = g "cmh"; sn_nscreens = g "nscr" } in
+                   sn_cmw = g "cmw"; sn_cmh = g "cmh"; sn_nscreens = g "nscr";
+                   sn_bpp = (if kv toks "bpp" = "" then (!pst).p_bpp else g "bpp") } in
         print_endline (caps_line "mcaps" !caps);
         let (c', o) = model_update !cfg !caps sn in
         caps := c';
         let scaled = kvi toks "scaled" = 1 in
         (* the update model covers unscaled clients with a pixel format the encoders support *)
         let bpp = iz (!pst).p_bpp in
-        let unsupported = not (bpp = 8 || bpp = 16 || bpp = 32) in
+        let unsupported = not (bpp = 8 || bpp = 16 || bpp = 32 || (bpp = 24 && (!cfg).g_raw_for_24bpp)) in
         Queue.push (o, scaled || unsupported) pending;
         print_endline (if scaled then "pred scaled" else if unsupported then "pred unsupported-bpp" else pred_line o)
     | ["out"; hex] -> handle_out hex
